@@ -285,7 +285,6 @@ type stub struct {
 	started    bool
 	doneC      chan struct{}
 	srvErrC    chan error
-	cfgErrC    chan error
 	syncReq    *api.SynchronizeRequest
 
 	registrationTimeout atomic.Int64 // time.Duration; written by Configure(), read from other goroutines
@@ -320,7 +319,6 @@ func New(p interface{}, opts ...Option) (Stub, error) {
 		idx:        os.Getenv(api.PluginIdxEnvVar),
 		socketPath: api.DefaultSocketPath,
 		dialer:     func(p string) (stdnet.Conn, error) { return stdnet.Dial("unix", p) },
-		cfgErrC:    make(chan error, 1),
 	}
 	stub.registrationTimeout.Store(int64(DefaultRegistrationTimeout))
 	stub.requestTimeout.Store(int64(DefaultRequestTimeout))
@@ -419,13 +417,15 @@ func (stub *stub) Start(ctx context.Context) (retErr error) {
 	}()
 
 	stub.srvErrC = make(chan error, 1)
-	select {
-	case <-stub.cfgErrC: // drop the unconsumed configuration result of an earlier, failed start
-	default:
-	}
+
+	// The configuration result is handed over through the context of this session's
+	// server: a Configure request still being handled on behalf of an earlier, dead
+	// session can never be mistaken for the configuration of this one.
+	cfgErrC := make(chan error, 1)
+	srvCtx := context.WithValue(ctx, cfgResultKey{}, cfgErrC)
 
 	go func(l stdnet.Listener, doneC chan struct{}, srvErrC chan error) {
-		srvErrC <- rpcs.Serve(ctx, l)
+		srvErrC <- rpcs.Serve(srvCtx, l)
 		close(doneC)
 	}(rpcl, stub.doneC, stub.srvErrC)
 
@@ -443,7 +443,7 @@ func (stub *stub) Start(ctx context.Context) (retErr error) {
 	verifHook("start.beforeCfgWait")
 
 	select {
-	case err = <-stub.cfgErrC:
+	case err = <-cfgErrC:
 	case <-time.After(cfgTimeout):
 		err = fmt.Errorf("timed out waiting for configuration by NRI/Runtime")
 	}
@@ -631,6 +631,10 @@ func (stub *stub) UpdateContainers(update []*api.ContainerUpdate) ([]*api.Contai
 	return nil, err
 }
 
+// cfgResultKey is the context key under which Start() passes the channel for its
+// configuration result to the Configure request(s) served in the same session.
+type cfgResultKey struct{}
+
 // Configure the plugin.
 func (stub *stub) Configure(ctx context.Context, req *api.ConfigureRequest) (rpl *api.ConfigureResponse, retErr error) {
 	var (
@@ -645,7 +649,12 @@ func (stub *stub) Configure(ctx context.Context, req *api.ConfigureRequest) (rpl
 	stub.requestTimeout.Store(req.RequestTimeout * int64(time.Millisecond))
 
 	defer func() {
-		stub.cfgErrC <- retErr
+		if cfgErrC, ok := ctx.Value(cfgResultKey{}).(chan error); ok {
+			select {
+			case cfgErrC <- retErr:
+			default:
+			}
+		}
 	}()
 
 	if handler := stub.handlers.Configure; handler == nil {
